@@ -117,7 +117,7 @@ class C12(Harness):
         for i in holders:
             ops += [['iset', i, 'n', 5], ['iupdate', i, 'n', 4], ['iset', i, 's', 'new'], ['iset', i, 'l', 'new'], ['mut', i, 'l'], ['mut', i, 's'], ['mut', i, 'k'], ['mut', i, 'x'], ['mut', i, 'lr'], ['objmut0', i], ['iset', i, 'sel0', 'alpha'],
                     ['attr', i, 'n', 'bounds', [0, 5]], ['attr', i, 'g', 'bounds', [0, 6]], ['attr', i, 'n', 'doc', 'di'], ['objmut', i], ['touch', i, 'n'],
-                    ['iset', i, 'n', 'cur'], ['iset', i, 's', 'cur'], ['oselmut', i]]
+                    ['iset', i, 'n', 'cur'], ['iset', i, 's', 'cur'], ['oselmut', i], ['trigger', i, 'n'], ['trigger', i, 's']]
         for k in ('M', 'Sub'):
             ops += [['cset', k, 'n', 3 if k == 'M' else 4], ['cset', k, 's', 'new'], ['cset', k, 'l', 'new'], ['cset', k, 'k', 'new'],
                     ['mut', k, 'l'], ['mut', k, 's'], ['attr', k, 'n', 'bounds', [0, 8] if k == 'M' else [0, 9]], ['objmut', k], ['cdefault', k, 'ro']]
@@ -273,6 +273,9 @@ class C12(Harness):
                         got = getattr(h.param[op[2]], op[3])
                         if got != val:
                             vs.append(V('own-attribute', '%s: attribute read back as %r' % (ctx, got), op=k))
+                elif k == 'trigger':
+                    # announcing the current value is not setting it: an instance that follows the class goes on following it
+                    w['inst'][op[1]].param.trigger(op[2])
                 elif k == 'oselmut':
                     w['inst'][op[1]].param.osel.objects['n%s' % op[1]] = 30 + op[1]
                     unchanged_for = [n for n, _ in self.holders(w, m) if n != op[1]]
